@@ -56,7 +56,9 @@ def run(tier, seed):
         if sh["width"] >= 3 and i % 2 == 0:
             for c in range(sh["width"]):
                 if sh["degs"][c] == 1 and sh["pcol"][c] < 0 and c not in sh["neg"]:
-                    sh["periodic"] = list(sh["periodic"]) + [2 if (not sh["periodic"] or sh["periodic"][0] != 2) else 4]
+                    # cycle lengths 2, 4, 8 and the trace length in turn, different from the first column's
+                    cand = [x for x in (4, 8, 2, sh["n"], 16) if x <= sh["n"] and x not in sh["periodic"]]
+                    sh["periodic"] = list(sh["periodic"]) + [cand[(i // 2) % len(cand)]]
                     sh["pcol"][c] = len(sh["periodic"]) - 1
                     break
         scs.append(sc)
